@@ -192,17 +192,24 @@ func TestVerifRepairPaths(t *testing.T) {
 			}
 		}
 	}
-	// chains at and beyond the supported depth
-	for _, n := range []int{9, 10, 11, 12} {
-		leaf := &failure122.Failure{Message: "ok"}
-		cur := leaf
-		for d := 1; d < n; d++ {
-			cur.Cause = &failure122.Failure{Message: "ok"}
-			cur = cur.Cause
+	// chains up to, at and beyond the supported depth, the invalid message at every position of the chain
+	for n := 1; n <= 12; n++ {
+		for pos := 0; pos < n; pos++ {
+			leaf := &failure122.Failure{Message: "ok"}
+			cur := leaf
+			if pos == 0 {
+				cur.Message = "bad \xff"
+			}
+			for d := 1; d < n; d++ {
+				cur.Cause = &failure122.Failure{Message: "ok"}
+				cur = cur.Cause
+				if d == pos {
+					cur.Message = "bad \xff"
+				}
+			}
+			changed, err := RepairInvalidUTF8(leaf)
+			fmt.Fprintf(w, "CHAIN %d pos=%d changed=%v err=%v valid=%v\n", n, pos, changed, err != nil, vpChainValid(leaf))
 		}
-		cur.Message = "bad \xff"
-		changed, err := RepairInvalidUTF8(leaf)
-		fmt.Fprintf(w, "CHAIN %d changed=%v err=%v valid=%v\n", n, changed, err != nil, vpChainValid(leaf))
 	}
 	fmt.Fprintf(w, "STATS roots=%d cases=%d missed=%d\n", len(roots), npaths, missed)
 }
